@@ -336,7 +336,7 @@ def _strip_loop(ctx, b):
     return cands[0], ctx.walk(b, start_bb=cands[0]).paths
 
 
-@rule("X-STRIP-SET", ["C14"], floor=2)
+@rule("X-STRIP-SET", ["C14", "C07"], floor=2)
 def x_strip_set(ctx):
     """The characters removed under flag x are exactly U+0009, U+000A, U+000D, U+0020, and only outside [...]
     (class nesting 0)."""
@@ -407,7 +407,7 @@ def x_strip_set(ctx):
     return out
 
 
-@rule("X-STRIP-STATE", ["C14"], floor=5)
+@rule("X-STRIP-STATE", ["C14", "C07"], floor=5)
 def x_strip_state(ctx):
     """Tracker of the stripping loop: an unescaped '\\' sets `escaped` and is kept; an unescaped '[' / ']' changes the
     nesting by +1 / -1 and is kept; a kept ordinary character clears `escaped`; a dropped character changes nothing;
